@@ -23,7 +23,8 @@ RULE = ('sessions = real 2021-2023 returns (answer-on-demand) restarted from a p
         'calls, then every k in [0, n] x {KeyboardInterrupt, EOFError, unsupported form, failing line} is injected (exhaustive over k). '
         'Oracle: file parses strictly, contains every (section,key,value) it held before and every answer accepted before the '
         'interruption, and a re-run never prompts for those. Non-trivial = an interruption with 0 < k < n; distinct = (session, k, kind)'
-        " Initial files are plain or commented templates (the rewritten file is then shorter than the one it replaces); a quarter of the sessions start from a file holding a value the year's input rejects.")
+        " Initial files are plain or commented templates (the rewritten file is then shorter than the one it replaces); a quarter of the sessions start from a file holding a value the year's input rejects."
+        ' A re-run on the file that was left behind must not raise.')
 ASSUMPTIONS = ['an "answer given" is a valid answer returned by input(); an invalid answer followed by the re-prompt is not stored',
                'the unsupported-form and failing-line faults are injected from the harness by substituting Solver._add_form / TypedField.value for the duration of one run']
 
